@@ -251,25 +251,10 @@ def run(check, an: Analysis):
     check.instance('S', 'same-push', all(shapes), hq.module.relpath,
                    'both append the item to `_data[key]` and create a fresh empty deque on '
                    'KeyError: %s' % shapes)
-    sel_ok = False
-    branches = [n for n in waitq.tree.body if isinstance(n, ast.If)]
-    if len(branches) == 1:
-        node = branches[0]
-        chain, has_else_raise = [], False
-        while isinstance(node, ast.If):
-            chain.append(node)
-            if len(node.orelse) == 1 and isinstance(node.orelse[0], ast.If):
-                node = node.orelse[0]
-            else:
-                has_else_raise = len(node.orelse) == 1 and isinstance(node.orelse[0],
-                                                                      ast.Raise)
-                break
-        targets = sorted(ast.unparse(c.body[0].value) for c in chain
-                         if c.body and isinstance(c.body[0], ast.Assign)
-                         and ast.unparse(c.body[0].targets[0]) == 'WaitQueue')
-        sel_ok = targets == ['HQWaitQueue', 'SDWaitQueue'] and has_else_raise
+    outcomes = {case: _selected(waitq.tree.body, case) for case in ('SD', '', 'other')}
+    sel_ok = outcomes == {'SD': 'SDWaitQueue', '': 'HQWaitQueue', 'other': 'raise'}
     check.instance('S', 'selector:strict', sel_ok, waitq.relpath,
-                   'USIM_WAITQUEUE selects HQ or SD and anything else raises')
+                   'USIM_WAITQUEUE selects HQ or SD and anything else raises: %s' % outcomes)
     # ---- D ------------------------------------------------------------------
     n_assert, bad_assert = 0, []
     for fn, frame in rules.all_frames(an):
@@ -403,3 +388,73 @@ def _builds_comparison(an: Analysis, callee: Callee) -> bool:
 
 def _accepted_assert(fn, node) -> bool:
     return False
+
+
+# ------------------------------------------------------- module level selection
+_SETTING = "os.environ.get(QUEUETYPE_KEY, '').upper()"
+
+
+def _selected(body, case: str):
+    """
+    what the module level statements bind ``WaitQueue`` to when the (upper-cased) setting
+    is 'SD', '' or anything else: a class name, 'raise', or '?' when a statement that
+    matters is not understood.  Tests compare the setting with string constants.
+    """
+    bound = [None]
+
+    def truth(test):
+        if isinstance(test, ast.UnaryOp) and isinstance(test.op, ast.Not):
+            inner = truth(test.operand)
+            return None if inner is None else not inner
+        if isinstance(test, ast.BoolOp):
+            values = [truth(v) for v in test.values]
+            if any(v is None for v in values):
+                return None
+            return all(values) if isinstance(test.op, ast.And) else any(values)
+        if isinstance(test, ast.Compare) and len(test.ops) == 1 and \
+                ast.unparse(test.left) == _SETTING:
+            op, right = test.ops[0], test.comparators[0]
+            if isinstance(op, (ast.Eq, ast.NotEq)) and isinstance(right, ast.Constant) \
+                    and isinstance(right.value, str):
+                same = case != 'other' and case == right.value
+                return same if isinstance(op, ast.Eq) else not same
+            if isinstance(op, (ast.In, ast.NotIn)) and \
+                    isinstance(right, (ast.Tuple, ast.List, ast.Set)) and all(
+                    isinstance(e, ast.Constant) and isinstance(e.value, str)
+                    for e in right.elts):
+                inside = case != 'other' and case in [e.value for e in right.elts]
+                return inside if isinstance(op, ast.In) else not inside
+        return None
+
+    def run(stmts):
+        """'raise' | '?' | None (fell through)"""
+        for stmt in stmts:
+            if isinstance(stmt, ast.If):
+                mentions = any(isinstance(n, ast.Name) and n.id == 'WaitQueue'
+                               for n in ast.walk(stmt)) or _SETTING in ast.unparse(stmt.test)
+                if not mentions:
+                    continue
+                value = truth(stmt.test)
+                if value is None:
+                    return '?'
+                result = run(stmt.body if value else stmt.orelse)
+                if result is not None:
+                    return result
+            elif isinstance(stmt, ast.Raise):
+                return 'raise'
+            elif isinstance(stmt, (ast.Assign, ast.AnnAssign)):
+                targets = stmt.targets if isinstance(stmt, ast.Assign) else [stmt.target]
+                if any(ast.unparse(t) == 'WaitQueue' for t in targets):
+                    if isinstance(stmt.value, ast.Name):
+                        bound[0] = stmt.value.id
+                    else:
+                        return '?'
+            elif any(isinstance(n, ast.Name) and n.id == 'WaitQueue'
+                     and isinstance(n.ctx, (ast.Store, ast.Del)) for n in ast.walk(stmt)) \
+                    and not isinstance(stmt, (ast.FunctionDef, ast.ClassDef,
+                                              ast.AsyncFunctionDef)):
+                return '?'
+        return None
+
+    result = run(body)
+    return result if result is not None else (bound[0] or '?')
